@@ -1,5 +1,5 @@
 // Harness over __make_multiple_write_mapping lifted from src/dev/write.rs; child of `crate::dev`.
-// @module-needs env header seg:M0
+// @module-needs env header write seg:M0
 #![allow(dead_code, unused_imports)]
 use super::*;
 use crate::dev::verif_env::*;
